@@ -55,6 +55,8 @@ pub struct Profile {
     pub callback_panics: bool,
     pub max_text: usize,
     pub fill_bias: bool,
+    /// occasionally append very large texts (up to 1 MiB)
+    pub huge_texts: bool,
 }
 
 impl Profile {
@@ -82,6 +84,7 @@ impl Profile {
             callback_panics: false,
             max_text: 300,
             fill_bias: false,
+            huge_texts: false,
         }
     }
     pub fn sharing() -> Self {
@@ -197,11 +200,14 @@ pub fn size_strategy(p: &Profile) -> BoxedStrategy<Size> {
 
 pub fn text_arg_strategy(p: &Profile) -> BoxedStrategy<Text> {
     let fill = if p.fill_bias { 6 } else { 1 };
-    prop_oneof![
-        8 => text_strategy(p.max_text).prop_map(Text::Lit),
-        fill => (-2i16..=2).prop_map(|d| Text::Fill { delta: d, unit: 'x' }),
-    ]
-    .boxed()
+    let mut v: Vec<(u32, BoxedStrategy<Text>)> = vec![
+        (16, text_strategy(p.max_text).prop_map(Text::Lit).boxed()),
+        (2 * fill, (-2i16..=2).prop_map(|d| Text::Fill { delta: d, unit: 'x' }).boxed()),
+    ];
+    if p.huge_texts {
+        v.push((1, prop_oneof![1000usize..=70_000, 70_000usize..=1_100_000].prop_map(|n| Text::Repeat { n, unit: 'h' }).boxed()));
+    }
+    Union::new_weighted(v).boxed()
 }
 
 pub fn iter_strategy(p: &Profile) -> BoxedStrategy<IterSpec> {
